@@ -12,6 +12,29 @@ from .common import (run_harness, BIN, ToolError, build_harness, finish, load_fi
                      validate_sharded, workdir, write_evidence, WORK)
 
 
+def run_sequences(scs, tag):
+    """execute builder call sequences on the real Exec and validate them against BuilderTrace.tla"""
+    wd = workdir("builder_" + tag)
+    spath = os.path.join(wd, "scen.ndjson")
+    with open(spath, "w") as f:
+        for s in scs:
+            f.write(json.dumps(s) + "\n")
+    tpath = os.path.join(wd, "trace.ndjson")
+    r = run_harness([os.path.join(BIN, "api_replay"), spath, tpath], 2400)
+    if r.returncode != 0:
+        log(r.stderr[-3000:])
+        raise ToolError("api_replay failed with status %d" % r.returncode)
+    slim = os.path.join(wd, "trace_slim.ndjson")
+    with open(tpath) as fi, open(slim, "w") as fo:
+        for ln in fi:
+            if '"e":"sys"' not in ln:
+                fo.write(ln)
+    results, tv_states, _ = validate_sharded("BuilderTrace.tla", "BuilderTrace.cfg", slim, "builder_" + tag)
+    if len(results) != len(scs):
+        raise ToolError("validated %d sequences but ran %d" % (len(results), len(scs)))
+    return results, tv_states
+
+
 def run(pid, tier, seed, replay=None):
     t0 = time.time()
     build_harness()
